@@ -19,3 +19,43 @@ EXP void verif_force_drag(struct reb_simulation* r){
         r->particles[i].az -= 1e-3 * r->particles[i].vz;
     }
 }
+
+/* ------------------------------------------------------------------------------------------
+ * Recording heartbeat: logs every step boundary the integrate loop reaches (called once before
+ * the loop and after every step, always before reb_check_exit), and executes a small event
+ * script keyed by steps_done (used by C08/C09/C05 to inject events *between* steps).
+ * ---------------------------------------------------------------------------------------- */
+struct hb_rec { uint64_t steps_done; double t, dt, dt_last_done; int status; unsigned int N; };
+#define HB_MAX 8192
+static struct hb_rec hb_log[HB_MAX];
+static int hb_n = 0;
+static int hb_overflow = 0;
+typedef void (*hb_user_t)(struct reb_simulation* r, int boundary_index);
+static hb_user_t hb_user = NULL;
+static uint64_t hb_stop_at = (uint64_t)-1;      /* set status=USER at this steps_done */
+EXP void verif_hb_reset(void){ hb_n = 0; hb_overflow = 0; hb_stop_at = (uint64_t)-1; }
+EXP void verif_hb_set_user(hb_user_t f){ hb_user = f; }
+EXP void verif_hb_stop_at(uint64_t s){ hb_stop_at = s; }
+EXP int verif_hb_count(void){ return hb_n; }
+EXP int verif_hb_overflow(void){ return hb_overflow; }
+EXP int verif_hb_get(int i, uint64_t* steps_done, double* t, double* dt, double* dt_last_done, int* status, unsigned int* N){
+    if (i < 0 || i >= hb_n) return -1;
+    *steps_done = hb_log[i].steps_done; *t = hb_log[i].t; *dt = hb_log[i].dt; *dt_last_done = hb_log[i].dt_last_done;
+    *status = hb_log[i].status; *N = hb_log[i].N;
+    return 0;
+}
+EXP void verif_heartbeat(struct reb_simulation* r){
+    if (hb_n < HB_MAX){
+        struct hb_rec* h = &hb_log[hb_n];
+        h->steps_done = r->steps_done; h->t = r->t; h->dt = r->dt; h->dt_last_done = r->dt_last_done; h->status = r->status; h->N = r->N;
+        hb_n++;
+    }else hb_overflow = 1;
+    if (hb_user) hb_user(r, hb_n - 1);
+    if (r->steps_done == hb_stop_at) r->status = REB_STATUS_USER;
+}
+
+/* counting free_particle_ap callback (C14) */
+static int free_ap_calls = 0;
+static uint32_t free_ap_last_hash = 0;
+EXP void verif_free_ap(struct reb_particle* p){ free_ap_calls++; free_ap_last_hash = p->hash; }
+EXP int verif_free_ap_take(uint32_t* last_hash){ int n = free_ap_calls; *last_hash = free_ap_last_hash; free_ap_calls = 0; return n; }
